@@ -39,15 +39,20 @@ Definition skip1 (st : ist) : ist :=
   {| i_index := i_index st; i_processed := i_processed st + 1; i_skipped := i_skipped st + 1;
      i_det_storage := i_det_storage st; i_det_serial := i_det_serial st |}.
 
-(* `if !self.detected_serial_header { match parse_dlt_with_storage_header(..) {..} }` on window w.
-   [legacy = true] is the code before the repair of the tiny-serial-stream defect (every non-InvalidData
-   error breaks the loop); the code in /repo is [legacy = false]: when nothing is latched yet a
-   NotEnoughData of the storage parser falls through to the serial attempt. *)
+(* `if !self.detected_serial_header { let data = fill_buf(); let avail = data.len();
+        match parse_dlt_with_storage_header(..) {..} }` on window w.
+   NotEnoughData arm (code in /repo, [legacy = false], after commits 47301c0 and 9045554):
+   `if self.detected_storage_header || avail >= MIN_DLT_MSG_SIZE { break }` -- only when fewer bytes than the
+   smallest storage-header message are available and the storage framing is not latched does the loop fall through
+   to the serial attempt (a shorter serial-header message may follow); an incomplete storage-header message stops
+   the iterator whether or not a message preceded it.
+   [legacy = true] is the code before 47301c0 (every non-InvalidData error breaks the loop), kept for the
+   refuted-witness theorem only. *)
 Definition storage_half (legacy : bool) (st : ist) (w : bytes) : res action :=
   match parse_storage (i_index st) w with
   | PMsg n m => on_msg true st n m
   | PInvalid => if i_det_storage st then Ok (ASkip (skip1 st)) else Ok APass
-  | PNotEnough _ => if legacy || i_det_storage st then Ok AStop else Ok APass
+  | PNotEnough _ => if legacy || i_det_storage st || (MIN_DLT_MSG_SIZE <=? blen w) then Ok AStop else Ok APass
   end.
 
 (* `if !self.detected_storage_header { match parse_dlt_with_serial_header(..) {..} }` *)
